@@ -4,7 +4,7 @@ from props.C02 import rq
 ASSUMPTIONS = ["VOL: reference image of 2 members + 1 unused slot (about 130 bytes) with ONE structural field set to each boundary value of a list, or truncated to each length; payload symbolic; "
                "after a successful open every listing/lookup/stream/extraction call for indices 0..count+1 runs in its own try block (real exception unwinding is translated)",
                "allocation requests above VF_MAX_ALLOC fail with std::bad_alloc"]
-OUTSIDE = ["CLM archives with more than 2 members", "multi-field corruptions other than the listed pairs; coverage-guided mutation of large real archives", "archives with more than 2 members"]
+OUTSIDE = ["a corrupted index entry whose kind becomes LZH (0x103): extraction then runs the whole LZH decoder (314-symbol tree, 4 KiB window), which gives no verdict within 30 minutes - the decoder layers that can be encoded are decided under C04/C15", "CLM archives with more than 2 members", "multi-field corruptions other than the listed pairs; coverage-guided mutation of large real archives", "archives with more than 2 members"]
 LEVEL_TEXT = ("Bounded model checking of the real archive readers over the symbolic file system: CBMC's pointer/bounds checks on every access of the translated code (each heap block, stack slot and table is its own object), "
               "front-end UB traps, termination within the unwinding bound, and the extent/usability post-conditions, for every payload of each corrupted or truncated shape.")
 LEVEL_NOTE = "Exception mode 'full': throw/catch/unwinding are translated, so behaviour after a failed call is part of the query."
@@ -29,7 +29,7 @@ def queries(tier):
         5: ("entry 0 name offset", [1, 7, 0xFFFFFFFF]),
         6: ("entry 0 block offset", [0, 99, 101, 120, 0x7FFFFFFF, 0x80000000, 0xFFFFFFF8, 0xFFFFFFFF]),
         7: ("entry 0 size", [0, 3, 0x7FFFFFFF, 0x80000000, 0xFFFFFFFF]),
-        8: ("entry 0 kind", [0, 0x101, 0x103, 0xFFFF]),
+        8: ("entry 0 kind", [0, 0x101, 0xFFFF]),        # 0x103 (LZH) sends ExtractFile into the full LZH decoder: no verdict in 30 min at unwind 1900, see OUTSIDE
         9: ("block 0 tag", [0]),
         10: ("block 0 length", [B | 0, B | 3, B | 40, B | 0x7FFFFFFF, 2]),
         11: ("VOL tag", [0]), 12: ("volh tag", [0]), 13: ("vols tag", [0]), 14: ("voli tag", [0]),
